@@ -76,7 +76,7 @@ pub fn strategy() -> impl Strategy<Value = Case> {
         prop::option::weighted(0.85, rec()),
         gen::greq_with(provision_or(gen::gurl())),
         prop_oneof![3 => Just(vec![]), 2 => prop::collection::vec(gen::greq_with(provision_or(gen::gurl())), 1..4)],
-        (prop::option::weighted(0.25, (prop::option::weighted(0.8, gen::gdoc()), prop::option::weighted(0.8, gen::gdoc()), prop::option::weighted(0.6, gen::gdoc()))), prop::option::weighted(0.12, prop::sample::select(vec![-1i32, -22, i32::MIN])), prop::bool::weighted(0.12), prop::option::weighted(0.1, (any::<bool>(), gen::case_mask())), prop::option::weighted(0.15, 0u8..6), prop::bool::weighted(0.2), prop::bool::weighted(0.06)),
+        (prop::option::weighted(0.25, (prop::option::weighted(0.8, gen::gdoc()), prop::option::weighted(0.8, gen::gdoc()), prop::option::weighted(0.6, gen::gdoc()))), prop::option::weighted(0.12, prop::sample::select(vec![-1i32, -22, i32::MIN, 2, 256, i32::MAX])), prop::bool::weighted(0.12), prop::option::weighted(0.1, (any::<bool>(), gen::case_mask())), prop::option::weighted(0.15, 0u8..6), prop::bool::weighted(0.2), prop::bool::weighted(0.06)),
     )
         .prop_map(|(ws, imds, hostga, mut rec, mut req, more, (later_rules, admin_raw, morph, exempt_shape, abs_form, then_direct_from_same_port, host_down_prelude))| {
             // the two signature-exempt uploads take their own route through the proxy; they are mediated like everything else
@@ -171,9 +171,13 @@ pub fn exchange(rig: &Rig, rec: Option<&Rec>, wire: &[u8], method: &str) -> Resu
 
 /// `pause`: the bytes from that offset on are written after that delay (a slow caller)
 pub fn exchange_paced(rig: &Rig, rec: Option<&Rec>, wire: &[u8], method: &str, pause: Option<(usize, Duration)>) -> Result<Observed, String> {
+    exchange_with_entry(rig, rec.map(|r| rig.entry_of(r)), wire, method, pause)
+}
+
+/// the same with the attribution record given as such (e.g. one whose elevation field is neither 0 nor 1)
+pub fn exchange_with_entry(rig: &Rig, entry: Option<azure_proxy_agent::redirector::verif_hooks::Entry>, wire: &[u8], method: &str, pause: Option<(usize, Duration)>) -> Result<Observed, String> {
     let before = rig.mock.bytes_by_listener();
     let _ = rig.mock.take_requests();
-    let entry = rec.map(|r| rig.entry_of(r));
     let mut conn = rig.open(entry, 0)?;
     let send_err = match pause {
         Some((at, d)) if at > 0 && at < wire.len() => {
@@ -268,7 +272,7 @@ pub fn eval(rig: &Rig, case: &Case, stats: &mut Stats) -> Outcome {
     let mut entry = case.rec.as_ref().map(|r| rig.entry_of(r));
     if let (Some(e), Some(v), Some(false)) = (entry.as_mut(), case.admin_raw, case.rec.as_ref().map(|r| r.is_root)) {
         e.is_admin = v;
-        stats.class("record:elevation-field-negative(status-unknown)");
+        stats.class("record:elevation-field-neither-0-nor-1");
     }
     let mut conn = match rig.open(entry, 0) {
         Ok(c) => Some(c),
